@@ -51,3 +51,71 @@ Lemma send_succ_sender : sender send_net ch_send_sendFileDataV2_0 = Some p_send_
 Proof. reflexivity. Qed.
 Lemma recv_succ_sender : sender recv_net ch_recv_recvFileDataV2_0 = Some p_recv_SendAck.
 Proof. reflexivity. Qed.
+
+(* ---- every fault reaches ctx.cancel (Model/ProcFault.v) on the generated nets ---- *)
+From Trzsz Require Import Model.ProcFault Proofs.ProcFault.
+
+Lemma send_faults_cancel : faults_cancel send_net = true.
+Proof. vm_compute. reflexivity. Qed.
+Lemma recv_faults_cancel : faults_cancel recv_net = true.
+Proof. vm_compute. reflexivity. Qed.
+Lemma hash_faults_cancel : faults_cancel hash_net = true.
+Proof. vm_compute. reflexivity. Qed.
+Lemma send_fault_violations : fault_violations false send_net = [].
+Proof. vm_compute. reflexivity. Qed.
+Lemma recv_fault_violations : fault_violations false recv_net = [].
+Proof. vm_compute. reflexivity. Qed.
+Lemma hash_fault_violations : fault_violations false hash_net = [].
+Proof. vm_compute. reflexivity. Qed.
+
+(* the error paths on which the goroutine may first have to wait for a consumer: exactly two,
+   the file reader of the sender and the decoder of the receiver, which forward the bytes a
+   failing Read still delivered (`n > 0 && err != nil`) before they report the error *)
+Lemma send_fault_waits : fault_waits send_net = [(p_send_ReadData, FileIO)].
+Proof. vm_compute. reflexivity. Qed.
+Lemma recv_fault_waits : fault_waits recv_net = [(p_recv_DecodeData, Check)].
+Proof. vm_compute. reflexivity. Qed.
+Lemma hash_fault_waits : fault_waits hash_net = [].
+Proof. vm_compute. reflexivity. Qed.
+
+(* the main functions: `defer ctx.cancel(nil)`; before the context exists they only do
+   operations and return *)
+Lemma mains_exit_cancel :
+  exit_cancel (info send_net p_send_main) = true /\ exit_cancel (info recv_net p_recv_main) = true /\
+  exit_cancel (info hash_net p_hash_main) = true.
+Proof. repeat split. Qed.
+Lemma preludes_quiet :
+  quietL send_main_prelude = true /\ quietL recv_main_prelude = true /\ quietL hash_main_prelude = true.
+Proof. vm_compute. repeat split. Qed.
+Lemma main_pids : p_send_main < nprocs send_net /\ p_recv_main < nprocs recv_net /\ p_hash_main < nprocs hash_net.
+Proof. vm_compute. repeat split; repeat constructor. Qed.
+
+Lemma main_exits_cancel :
+  (forall D io_ret g, reach send_net D io_ret g -> procs g p_send_main = Exited -> cancelled g = true) /\
+  (forall D io_ret g, reach recv_net D io_ret g -> procs g p_recv_main = Exited -> cancelled g = true) /\
+  (forall D io_ret g, reach hash_net D io_ret g -> procs g p_hash_main = Exited -> cancelled g = true) /\
+  quietL send_main_prelude = true /\ quietL recv_main_prelude = true /\ quietL hash_main_prelude = true.
+Proof.
+  destruct mains_exit_cancel as [Xs [Xr Xh]]. destruct main_pids as [Ps [Pr Ph]].
+  refine (conj _ (conj _ (conj _ preludes_quiet))).
+  - intros D io_ret g R. exact (exit_cancels send_net D io_ret g R p_send_main Ps Xs).
+  - intros D io_ret g R. exact (exit_cancels recv_net D io_ret g R p_recv_main Pr Xr).
+  - intros D io_ret g R. exact (exit_cancels hash_net D io_ret g R p_hash_main Ph Xh).
+Qed.
+
+(* recvFileDataV2 after the success signal: `<-saveDone` (fix d144b66).  The channel is
+   unbuffered, nobody sends on it, the saver closes it when it exits (defer), the saver has a
+   smaller rank than main; main waits for it once, in the arm that received the success
+   signal, and re-checks the context before it reads the digest.  So in a cancelled world the
+   wait is covered by theorem B like every other wait for a closer (W3). *)
+Lemma recv_main_waits_for_saver :
+  capof recv_net ch_recv_SaveData_1 = 0 /\ sender recv_net ch_recv_SaveData_1 = None /\
+  existsb (Nat.eqb ch_recv_SaveData_1) (defer_close (info recv_net p_recv_SaveData)) = true /\
+  closer_ok recv_net p_recv_main ch_recv_SaveData_1 = true /\
+  count (is_recvclose ch_recv_SaveData_1) (all_stmts (info recv_net p_recv_main)) = 1 /\
+  underL ch_recv_recvFileDataV2_0 ch_recv_SaveData_1 (body (info recv_net p_recv_main)) = true /\
+  body (info recv_net p_recv_main) =
+    [ Sel [ (RecvAlt ch_recv_recvFileDataV2_0,
+             [ RecvClose ch_recv_SaveData_1; IfCtxExit; RecvClose ch_recv_CalculateMD5_0; Return ]);
+            (DoneAlt, [ Return ]) ] ].
+Proof. vm_compute. repeat split. Qed.
